@@ -64,7 +64,7 @@ def consts(kind, fixed, **kw):
              InitLane="<- LaneM1" if kind != "value" else "<- LaneV",
              OptSet="<- OptNoKeep", AllowEmpty=False, AllowHold=False, AllowStop=False,
              Strategies=strset(["abort"]), MaxBad=0, AllowBadCmd=False, AllowTakeDrop=False,
-             Settled=True, MaxSteps=4, Fixed=strset(fixed), Enabled=strset(ALL_FINDINGS))
+             Placement=False, Settled=True, MaxSteps=4, Fixed=strset(fixed), Enabled=strset(ALL_FINDINGS))
     for k, v in kw.items():
         c[k] = v
     return c
